@@ -214,7 +214,7 @@ fn check_huge(ctx: &Ctx, sign: i32, n: usize, i: usize, d: i64, counts: &mut (u6
     }
 }
 
-fn sweep_huge_table(ctx: &Ctx, thorough: bool) -> (u64, u64) {
+pub fn sweep_huge_table(ctx: &Ctx, thorough: bool) -> (u64, u64) {
     let sp = (D28 - 1) as usize;
     let n = sp + 300;
     let mut work = vec![];
@@ -389,6 +389,8 @@ pub fn run(args: &Args) -> i32 {
     tl = tl.merge(sweep_wide_offsets(&ctx, thorough));
     // table x trailing DST rule x leap record at the rule transition (searches; the forward side is C03/C04 territory)
     let rtabs = crate::rulealpha::Tables::build(&cyc);
+    // both ends of the supported range in zones with leap seconds (range checks must be made on the UTC value)
+    tl = tl.merge(crate::find::sweep_range_ends(&ctx));
     if !args.digest_mode {
         tl = tl.merge(crate::find::sweep_junction(&ctx, &rtabs, false, true, false));
     }
